@@ -29,7 +29,12 @@ def gen_set(rng):
     elif r < 0.20: n = 0
     if ty == 'I': vals = [str(rng.choice([0, 1, -1, 32767, -32768, 2147483647, -2147483648, rng.randrange(-70000, 70000)])) for _ in range(n)]
     elif ty == 'F': vals = [harness.fhex(gen.rfloat(rng)) for _ in range(n)]
-    else: vals = [hx(gen.rname(rng, 12)) for _ in range(n)]
+    else:
+        vals = [hx(gen.rname(rng, 12)) for _ in range(n)]
+        # one long string now and then: the leading dimension is the longest string, whatever its length (254..300, 1000)
+        if n and rng.random() < 0.12:
+            L = rng.choice([254, 255, 256, 257, 300, 1000])
+            vals[rng.randrange(n)] = hx(bytes(rng.randrange(33, 127) for _ in range(L)))
     return 'P.set %s %d %s %d %s' % (ty, nd, ' '.join(map(str, dims)), n, ' '.join(vals)), ty, n, dims
 
 def build(rng, nops):
@@ -67,8 +72,18 @@ def build(rng, nops):
             kinds['declare'] = kinds.get('declare', 0) + 1
     return lines, kinds
 
+def _retype(rng, ty, dims):
+    n = prod(dims)
+    if ty == 'C':
+        if not dims: return [], [bytes([rng.randrange(65, 91)])]
+        w = dims[0]; cells = prod(dims[1:]) if len(dims) > 1 else 1
+        return dims, [bytes(rng.randrange(65, 91) for _ in range(rng.randrange(w + 1))) if w else b'' for _ in range(cells)]
+    if ty == 'B': return dims, [rng.choice([-128, -1, 0, 1, 127]) for _ in range(n)]
+    if ty == 'I': return dims, [rng.choice([-32768, -1, 0, 1, 32767]) for _ in range(n)]
+    return dims, [harness.fhex(gen.rfloat(rng)) for _ in range(n)]
+
 def sel(ln):
-    return ln.split(' ')[0] in ('P.new', 'P.set', 'P.show', 'P.lock', 'P.unlock', 'P.name', 'param', 'lock', 'unlock', 'snap')
+    return ln.split(' ')[0] in ('P.get', 'P.desc', 'P.new', 'P.set', 'P.show', 'P.lock', 'P.unlock', 'P.name', 'param', 'lock', 'unlock', 'snap')
 def proj(l):
     # the property's projection of a snapshot: the parameter tree (groups, parameters)
     return l if l[:2] in ('G ', 'P ', 'ok', 'th') else None
@@ -104,6 +119,15 @@ def oracle(rep, cid, lines, cl, stats):
                     rep.violation('oracle', '%s: parameter tree after the call is not the documented one (%s)' % (kind, why),
                                   script=[l for l in hist if not l.startswith('snap')] + ['snap 0'], signature='tree:' + kind)
             snap = new
+        elif c == 'P.get':
+            P = None
+            if o == 'ok' and snap is not None:
+                for g in snap.groups:
+                    if g['name'] == harness.unhx(t[2]):
+                        for q in g['params']:
+                            if q['name'] == harness.unhx(t[3]): P = copy.deepcopy(q); break
+                        break
+        elif c == 'P.desc' and P is not None: P['desc'] = harness.unhx(t[1])
         elif c == 'P.new': P = dict(name=harness.unhx(t[1]), desc=harness.unhx(t[2]), lock=0, type='N', dims=[], vals=[])
         elif c == 'P.name': P['name'] = harness.unhx(t[1])
         elif c == 'P.lock': P['lock'] = 1
@@ -149,6 +173,9 @@ def oracle(rep, cid, lines, cl, stats):
                     stats['pending'] = ('parameter', tree_after(snap.groups, g, copy.deepcopy(P)), 'group %r parameter %r' % (g, P['name']))
             else:
                 want = 'throw invalid_argument' if P['name'] == b'' else ('throw runtime_error' if P['type'] == 'N' else None)
+                # a named parameter of ANY of the four types is accepted (groups other than POINT / ANALOG: their mandatory
+                # parameters are read back by the updaters, see the known finding of C10)
+                if want is None and g not in (b'POINT', b'ANALOG'): want = 'ok'
                 if want and o != want:
                     bad += 1
                     rep.violation('oracle', 'parameter() answered %r, documented %r' % (o, want), script=list(hist), signature='param-refusal')
@@ -175,7 +202,30 @@ def run(rep, work, rng, tier):
         lines, k = build(rng, rng.choice([2, 5, 9, 14]))
         cases.append(('e%d' % i, lines))
         for a, b in k.items(): kinds[a] = kinds.get(a, 0) + b
-    (c, _), (m, _), nd = common.correspondence(rep, work, cases, select=sel, project=proj, label='parameter tree')
+    # parameters of EVERY type the format knows (BYTE included: no setter builds one) copied out of a loaded file and handed to
+    # parameter(): into a new group, into an existing one, over a parameter of that name
+    import os
+    from lib import filegen, c3dspec
+    shared = work.sub('shared'); ncopy = 0
+    for i in range(max(20, n // 6)):
+        L = filegen.make_layout(rng); cont = filegen.make_content(rng, dict(dense_ids=False))
+        gids = {r[1]: r[2] for r in cont['records'] if r[0] == 'G'}
+        gid = max(gids) + 1 if max(gids) < 127 else min(set(range(1, 128)) - set(gids))
+        recs = [('G', gid, b'SRC', b'', 0)]
+        for ty in 'BBCIF':
+            r = filegen.rand_param_rec(rng, gid, name=b'Q' + ty.encode() + b'%d' % len(recs))
+            recs.append(r[:5] + (ty,) + ((r[6], r[7]) if r[5] == ty else _retype(rng, ty, r[6])))
+        cont['records'] = cont['records'] + recs
+        name = 'pc%d.c3d' % i; open(os.path.join(shared, name), 'wb').write(c3dspec.encode(L, cont))
+        lines = ['loadx 0 ' + name, 'snap 0']
+        for r in recs[1:]:
+            lines += ['P.get 0 %s %s' % (hx(b'SRC'), hx(r[2])), 'P.show']
+            if rng.random() < 0.4: lines.append(rng.choice(['P.lock', 'P.unlock', 'P.desc ' + hx(b'copied')]))
+            tgt = rng.choice([b'NEWG', b'SRC', b'POINT', b'FORCE_PLATFORM', b'EXTRA0'])
+            if rng.random() < 0.3: lines.append('P.name ' + hx(rng.choice([b'ZERO', b'USED2', r[2], b'OTHER'])))
+            lines += ['param 0 ' + hx(tgt), 'snap 0']; ncopy += 1
+        cases.append(('pc%d' % i, lines)); kinds['copied-from-file'] = kinds.get('copied-from-file', 0) + len(recs) - 1
+    (c, _), (m, _), nd = common.correspondence(rep, work, cases, select=sel, project=proj, label='parameter tree', shared=shared)
     stats = {}; bad = 0
     for cid, lines in cases:
         cl, cs = c.get(cid, ([], 'missing'))
